@@ -103,7 +103,10 @@ class PGen:
             lambda: ["Computed", E()], lambda: ["Computed", C()], lambda: ["Computed", ["bin", "+", ["this", "s"], "z"]], lambda: ["Computed", ["bin", "*", ["this", "b2"], 2]],
             lambda: ["Check", ["bin", ">=", E(), 0]], lambda: ["Rebuild", B, E()], lambda: ["Default", B, E()], lambda: ["Const", r.randint(0, 3), B] if False else ["Default", ["name", "Int16ub"], E()],
             lambda: ["RepeatUntil", ["bin", r.choice(["==", ">=", "<"]), ["obj"], r.choice([0, 1, 200])], B],
-            lambda: ["RepeatUntil", ["bin", "==", ["fn", "len", ["list"]], ["bin", "+", ["bin", "&", ["this", "n"], 1], 1]] if False else ["bin", "==", ["obj"], 0], ["name", "Int8sb"]],
+            lambda: ["RepeatUntil", ["bin", "==", ["obj"], 0], ["name", "Int8sb"]],
+            # predicates over the list collected so far (list_ is bound to it in generated code as well)
+            lambda: ["RepeatUntil", r.choice([["bin", "==", ["fn", "len", ["list"]], r.randint(1, 3)], ["bin", "==", ["list", -1], 0], ["bin", ">", ["fn", "sum", ["list"]], 3],
+                                              ["bin", "|", ["bin", "==", ["list", 0], ["obj"]], ["bin", ">=", ["fn", "len", ["list"]], 3]]]), r.choice([B, ["name", "Int8sb"]])],
             lambda: ["Prefixed", B, ["Bytes", ["bin", "&", E(), 1]], False], lambda: ["Prefixed", B, ["name", "GreedyBytes"], r.random() < 0.4],
             lambda: ["PrefixedArray", B, X()], lambda: ["PascalString", B, "utf8"], lambda: ["FocusedSeq", "v", [["c", ["Computed", EN()]], ["v", ["Bytes", ["this", "c"]]], [None, ["Padding", 1]]]],
             lambda: ["Sequence", [[None, X()], ["q", B], [None, ["Bytes", ["bin", "&", ["this", "q"], 1]]], [None, ["Computed", EN()]]]],
